@@ -246,3 +246,53 @@ Proof.
     + destruct (WA Hh Hf) as (A & _). destruct A as [A|[A|[A|A]]]; discriminate.
   - contradiction.
 Qed.
+
+(** * Faults inside subjectiveTail (extra driver [fault], harness/c16/c16_fault_test.go)
+
+    One case = one Start() with one injected fault of the getter or of the store.
+    What the property can still ask of such a run (see Props/C16_more.v: the full
+    "one gap-free chain, nothing outside" is REFUTED for failing environments): *)
+Record case16f := Case16f { kf_fault : fault; kf_case : case16 }.
+
+Definition model16f (c : case16f) : obs :=
+  let c0 := kf_case c in
+  start_step_f (kf_fault c) (k_params c0) (k_times c0) (k_now c0) (k_store c0).
+
+(** the weaker store invariant: the chain [Tail..Head] is gap-free (the driver
+    reports a hole as the impossible extra 0) with 1 <= Tail <= Head <= network
+    head, or empty; everything retrievable outside of it is a header of the
+    network chain *)
+Definition loose_store_ok (times : list Z) (st : store) : bool :=
+  (if st_empty st then s_head st =? 0
+   else (1 <=? s_tail st) && (s_tail st <=? s_head st) && (s_head st <=? net_head times))
+  && forallb (fun e => in_chain times e
+                       && negb (negb (st_empty st) && (s_tail st <=? e) && (e <=? s_head st)))
+             (s_extra st).
+
+(** nothing retrievable before is lost *)
+Definition no_loss (c : case16) : bool :=
+  forallb (fun h => negb (st_has (k_store c) h) || st_has (o_store (k_obs c)) h)
+          (heights_from 1 (length (k_times c))).
+
+Definition is_write (f : fault) : bool := match f with FWrite _ => true | _ => false end.
+Definition is_none (f : fault) : bool := match f with FNone => true | _ => false end.
+
+Definition ok16f (c : case16f) : bool :=
+  let c0 := kf_case c in
+  let p := k_params c0 in let o := k_obs c0 in
+  if is_none (kf_fault c) then ok16 c0 else
+  match o_out o with
+  | OOk => ok16 c0                      (* a fault that does not surface left a complete move behind *)
+  | OErr =>
+    valid_spec p
+    && (negb (window_mode p) || forallb (fun h => in_chain (k_times c0) h) (o_req o))
+    && (match s_extra (k_store c0) with _ :: _ => true | [] => loose_store_ok (k_times c0) (o_store o) end)
+    (* a failed move loses no header, except the restart from a configured tail above
+       everything stored (SyncFromHeight / SyncFromHash), whose wipe went through *)
+    && (no_loss c0 || (is_write (kf_fault c) && negb (window_mode p) && st_empty (o_store o)))
+  | OPanic => false
+  | OInvalid => negb (valid_spec p)
+  end.
+
+Definition chk16f (c : case16f) : bool * bool * N :=
+  (obs_eqb (model16f c) (k_obs (kf_case c)), ok16f c, 0).
